@@ -335,7 +335,7 @@ func (m *c04mux) Gen(w *e.World, r *e.RNG) e.Step {
 		if r.Chance(0.3) {
 			a.Allow = []int{r.Intn(len(iw.users[1]))}
 		}
-		a.Other = r.Chance(0.05)
+		a.Other = r.Chance(0.3)
 		w.Ext["ics_last_grant"] = [2]int{signer, int(a.To[len(a.To)-1] - '0')}
 		p, _ := json.Marshal(a)
 		return e.Step{K: "ibc", Op: "approve", A: signer, P: p}
@@ -345,6 +345,7 @@ func (m *c04mux) Gen(w *e.World, r *e.RNG) e.Step {
 		if lg, ok := w.Ext["ics_last_grant"].([2]int); ok && r.Chance(0.6) {
 			signer, a.To = lg[0], fmt.Sprintf("fic:%d", lg[1]%nICSFic)
 		}
+		a.Other = a.M != "revoke" && r.Chance(0.3)
 		p, _ := json.Marshal(a)
 		return e.Step{K: "ibc", Op: "approve", A: signer, P: p}
 	case 2:
@@ -464,14 +465,27 @@ func (m *c04mux) Exec(w *e.World, st *e.Step) *e.Violation {
 		}
 		switch a.M {
 		case "approve":
-			al := icsABIAlloc{SourcePort: port, SourceChannel: channel}
+			al := icsABIAlloc{SourcePort: port, SourceChannel: ep.ChannelID}
 			for i, fi := range a.Fams {
 				al.SpendLimit = append(al.SpendLimit, icsABICoin{iw.denomOn(iw.fams[fi%len(iw.fams)], 0), e.BigS(a.Amts[i])})
 			}
 			for _, r := range a.Allow {
 				al.AllowList = append(al.AllowList, iw.users[1][r%len(iw.users[1])].Acc.String())
 			}
-			data, err = loadABI("ics20").Pack("approve", to, []icsABIAlloc{al})
+			allocs := []icsABIAlloc{al}
+			if a.Other {
+				// a second allocation on the same port for another channel, with other limits
+				o := icsABIAlloc{SourcePort: port, SourceChannel: "channel-77"}
+				for _, c := range al.SpendLimit {
+					o.SpendLimit = append(o.SpendLimit, icsABICoin{c.Denom, big.NewInt(777_000)})
+				}
+				if len(a.Allow)%2 == 0 {
+					allocs = []icsABIAlloc{o, al}
+				} else {
+					allocs = append(allocs, o)
+				}
+			}
+			data, err = loadABI("ics20").Pack("approve", to, allocs)
 		case "increaseAllowance", "decreaseAllowance":
 			data, err = loadABI("ics20").Pack(a.M, to, port, channel, iw.denomOn(iw.fams[a.Fams[0]%len(iw.fams)], 0), e.BigS(a.Amts[0]))
 		case "revoke":
@@ -492,15 +506,20 @@ func (m *c04mux) Exec(w *e.World, st *e.Step) *e.Violation {
 			want := map[string]*big.Int{}
 			switch a.M {
 			case "approve":
-				if a.Other {
-					return x.nonInterference(w, pre, post, signerName, nil, desc) // another channel: not what this oracle tracks
-				}
 				for i, fi := range a.Fams {
 					want[iw.denomOn(iw.fams[fi%len(iw.fams)], 0)] = e.BigS(a.Amts[i])
 				}
 			case "revoke":
 				// nothing is left
 			default:
+				if a.Other {
+					// aimed at the allocation of the other channel: this channel's allocation must not move
+					if allocString(before) != allocString(after) {
+						return e.Violatef("precompile-authority", "ics20-allowance-change-hit-another-channel:"+a.M, "%s for channel-77 changed the allocation of %s from %s to %s", desc, ep.ChannelID, allocString(before), allocString(after))
+					}
+					w.Stats.Probe("ics20_other_channel_adjusted")
+					return x.nonInterference(w, pre, post, signerName, nil, desc)
+				}
 				if before == nil {
 					return e.Violatef("precompile-authority", "ics20-allowance-changed-without-grant:"+a.M, "%s succeeded although no allocation existed", desc)
 				}
